@@ -48,6 +48,10 @@ pub enum Req {
     Same,
     Next,
     Wrong,
+    /// the next version is the current one with a suffix (current is a strict prefix of it)
+    NextExtendsCurrent,
+    /// requested is a strict prefix of what the new code reports
+    PrefixOfReported,
 }
 
 #[derive(Clone, Copy, Debug, Serialize, Deserialize, PartialEq, Eq)]
@@ -166,13 +170,13 @@ impl Property for C15 {
         "C15"
     }
     fn rule(&self) -> &'static str {
-        "(A) for each of the five production contracts and a harness contract built with the repo's derive macros: ALL sequences over {upgrade(empty-Wasm hash, keeps native dispatch of the current source), migrate} x {owner, former owner, stranger, nobody} up to length 3 (quick) / 4 (thorough), with and without a preceding ownership transfer, enumerated as fixed cases; proptest adds random sequences up to length 8. Oracle: migration-window model (upgrade needs the current owner and opens the window; migrate needs the current owner and an open window, closes it, emits upgraded(version)); everything else fails with the ledger snapshot identical; the window flag is also read directly. (B) Upgrader: ALL combinations of target (configurable harness target; native dummy -> committed dummy.wasm; the five production contracts) x requested version (same / next / wrong) x authorisation coverage (both steps, one step only, none, both by a stranger, both by the former owner) x migration data (well-typed, ill-typed, too many arguments, failing migration, new code reporting another / the old version), enumerated as fixed cases, with and without a preceding ownership transfer. Oracle: success iff versions differ beforehand, the current owner authorised both steps, migrate accepts the data, and the version afterwards equals the request (then version/data are the new ones); otherwise failure with the target's ledger snapshot identical (code, version, data, flag). non-trivial = any case but a lone owner upgrade; distinct by Debug hash"
+        "(A) for each of the five production contracts and a harness contract built with the repo's derive macros: ALL sequences over {upgrade(empty-Wasm hash, keeps native dispatch of the current source), migrate} x {owner, former owner, stranger, nobody} up to length 3 (quick) / 4 (thorough), with and without a preceding ownership transfer, enumerated as fixed cases; proptest adds random sequences up to length 8. Oracle: migration-window model (upgrade needs the current owner and opens the window; migrate needs the current owner and an open window, closes it, emits upgraded(version)); everything else fails with the ledger snapshot identical; the window flag is also read directly. (B) Upgrader: ALL combinations of target (configurable harness target; native dummy -> committed dummy.wasm; the five production contracts) x requested version (same / next / wrong / current+suffix / strict prefix of what the new code reports) x authorisation coverage (both steps, one step only, none, both by a stranger, both by the former owner) x migration data (well-typed, ill-typed, too many arguments, failing migration, new code reporting another / the old version), enumerated as fixed cases, with and without a preceding ownership transfer. Oracle: success iff versions differ beforehand, the current owner authorised both steps, migrate accepts the data, and the version afterwards equals the request (then version/data are the new ones); otherwise failure with the target's ledger snapshot identical (code, version, data, flag). non-trivial = any case but a lone owner upgrade; distinct by Debug hash"
     }
     fn fixed_is_exhaustive(&self) -> Option<&'static str> {
         Some("all {upgrade,migrate}x{owner,former,stranger,nobody} sequences to length 3 (quick) / 4 (thorough) on 6 targets x {with,without} ownership transfer; and the full Upgrader matrix")
     }
     fn cases(&self, tier: Tier) -> u64 {
-        tier.pick(2000, 30000)
+        tier.pick(4000, 60000)
     }
     fn strategy(&self, _tier: Tier) -> BoxedStrategy<Case> {
         (0u8..6, any::<bool>(), proptest::collection::vec(act(), 4..9)).prop_map(|(target, transfer_first, actions)| Case::Seq { target, transfer_first, actions }).boxed()
@@ -189,7 +193,7 @@ impl Property for C15 {
         }
         for transfer_first in [false, true] {
             for auth in AUTHS {
-                for req in [Req::Same, Req::Next, Req::Wrong] {
+                for req in [Req::Same, Req::Next, Req::Wrong, Req::NextExtendsCurrent, Req::PrefixOfReported] {
                     for data in [Data::WellTyped, Data::IllTyped, Data::TooManyArgs, Data::Fails, Data::ReportsOtherVersion, Data::ReportsOldVersion] {
                         v.push(Case::Upg { target: UT::VerProbe, req, auth, data, transfer_first });
                     }
@@ -307,10 +311,13 @@ impl Property for C15 {
                     (owner_initial, Address::generate(env))
                 };
                 ensure_p!(sstring_to_vec(&tclient.version()) == cur_version.as_bytes(), "unexpected initial version");
-                let requested = match req {
+                let extended = format!("{}.1", cur_version);
+                let requested: &str = match req {
                     Req::Same => cur_version,
                     Req::Next => next_version,
                     Req::Wrong => "9.9.9",
+                    Req::NextExtendsCurrent => &extended,
+                    Req::PrefixOfReported => "1.1",
                 };
                 // migration data
                 let applicable = match (target, data) {
@@ -321,9 +328,10 @@ impl Property for C15 {
                 let data = if applicable { *data } else { Data::WellTyped };
                 let mdata: SVec<Val> = match (target, data) {
                     (UT::VerProbe, d) => {
-                        let reported = match d {
-                            Data::ReportsOtherVersion => "7.7.7",
-                            Data::ReportsOldVersion => cur_version,
+                        let reported = match (d, req) {
+                            (Data::ReportsOtherVersion, _) => "7.7.7",
+                            (Data::ReportsOldVersion, _) => cur_version,
+                            (_, Req::PrefixOfReported) => "1.1.0",
                             _ => requested,
                         };
                         match d {
@@ -344,6 +352,7 @@ impl Property for C15 {
                     (_, Data::IllTyped | Data::TooManyArgs | Data::Fails) => None,
                     (UT::VerProbe, Data::ReportsOtherVersion) => Some("7.7.7"),
                     (UT::VerProbe, Data::ReportsOldVersion) => Some(cur_version),
+                    (UT::VerProbe, _) if *req == Req::PrefixOfReported => Some("1.1.0"),
                     (UT::VerProbe, _) => Some(requested),
                     (UT::Dummy, _) => Some("0.2.0"),
                     (UT::Prod(_), _) => Some("0.1.0"),
